@@ -153,11 +153,12 @@ def eval_cases_in_coq(tag, imports, terms, shard=300, timeout=600):
     shards = []
     for k in range(0, len(terms), shard):
         name = "cases_%s_%d" % (tag, k // shard)
-        body = ["From BV Require Import Base.Prelude.", imports, "",
-                "Definition verdicts : list bool := ["]
+        body = ["From BV Require Import Base.Prelude.", imports, ""]
         chunk = terms[k:k + shard]
-        body.append(";\n".join("  (" + t + ")" for t in chunk))
-        body.append("].")
+        # one Definition per case: Coq elaborates a single huge list literal >2x slower
+        for j, t in enumerate(chunk):
+            body.append("Definition v%d : bool := (%s)." % (j, t))
+        body.append("Definition verdicts : list bool := [" + "; ".join("v%d" % j for j in range(len(chunk))) + "].")
         body.append('Eval vm_compute in (length verdicts, bad_idx verdicts).')
         open(os.path.join(CASES_DIR, name + ".v"), "w").write("\n".join(body) + "\n")
         shards.append((name, k, len(chunk)))
